@@ -21,7 +21,9 @@ BOUNDS = {
              '(size-0 blocks, duplicates, unsorted, 2 charges) with reversed / rotated _qdata; every result followed by the flag consumers',
     'thorough': 'Tier A additionally rank 3, all variants; Tier B more structures',
 }
-OUTSIDE = 'dtype of blocks in symbolic mode (object); compiled kernels (C04); histories longer than 2 are covered by induction only'
+OUTSIDE = ('dtype of blocks in symbolic mode (object); compiled kernels (C04); histories longer than 2 are covered by induction only; '
+           'ipurge_zeros with a positive cutoff (block norms = sqrt variables compared with the cutoff, followed by a consumer, stalls z3): C02 runs only '
+           'its cutoff=0 variant (same _qdata / flag code path), the positive cutoff is checked in C01 and C03; setitem/int_first_npc runs in Tier B only')
 STUBS = P1.STUBS
 ASSUMPTIONS = P1.ASSUMPTIONS + ['pre-states satisfy the representation invariant (checked by the same formulas before the operation)']
 
